@@ -1667,7 +1667,7 @@ fn gen_c18_case(r: &mut Rng, stats: &mut HashMap<String, usize>) -> (String, Vec
         failing.push(format!("lbouter {q0};"));
     }
     // (statements around the late classical register `lt` are not re-used: its declaration may or may not be in the session)
-    let reusable = |s: &String| !s.contains("lt[") && !s.contains("(lt==");
+    let reusable = |s: &String| !s.contains("lt[") && !s.contains("(lt==") && !s.starts_with("gate ");
     for s in p.stmts.iter().chain(p2.stmts.iter()).take(npre) {
         if p.stmts.contains(s) && reusable(s) {
             failing.push(s.clone());
